@@ -263,6 +263,18 @@ PROPS.update({
                "(first poll must be Ready when no guard is held) and by histories holding read/write guards across other calls."),
         technique="Lean 4 proof (shared model + semaphore lemmas) + model/implementation correspondence on the async flavour",
         design_ref="DESIGN.md §6 C16"),
+    "C20": dict(obs_prop(["EyeballVerif.Props.C20"],
+        "c20_ledger_step / c20_ledger_run: after any sequence of calls every instance ever created (construction or clone) is in exactly one of {held by the library, handed to the caller, destroyed by the library}, "
+        "exactly once; c20_held_one: the library holds exactly one instance until the state is destroyed, none afterwards; c20_all_accounted",
+        [{"name": "own"}], extra_tb=["memory safety of the three unsafe blocks (reuse_pin_box layout equality, ptr::read + forget in into_shared, unreachable_unchecked) is outside any executable model: validated by the "
+                                     "instrumented runs (double drops / leaks would show) and, in the thorough tier, by Miri — not proved"]),
+        claim=("PARTIAL. Lean 4 theorems about the ownership ledger of the eyeball crate: each call moves instances between 'held by the library', 'handed to the caller' and 'destroyed'; for every call sequence "
+               "the three sets partition all instances ever created, each exactly once (c20_ledger_run — no double drop, no leak, no drop while held), and the library holds exactly the current value until the "
+               "last strong handle is gone (c20_held_one). Tied to the code by an instrumented element type (fresh id per construction/clone, drop registry with double-drop detection) whose library-held id set "
+               "is compared with the model after every call, both lock flavours. For the vector crates and adapters (imbl shares and copies chunks internally) only the invariants are checked on the "
+               "implementation: no double drop, and nothing alive once vector, subscribers, adapters and diffs are gone. The memory safety of the unsafe blocks themselves is not a theorem."),
+        technique="Lean 4 proof (partition invariant of an ownership ledger) + instrumented differential runs (exact for eyeball, invariants for the vector crates)",
+        design_ref="DESIGN.md §6 C20"),
     "C04": dict(obs_prop(["EyeballVerif.Props.C04"],
         "c04_mutual_exclusion (guards exclude, from WInv, every reachable state), c04_value_frame (only the store segment changes the value and it records what it replaced), c04_set_chain (along every run the "
         "stores form a chain from the initial to the final value), c04_reads_current, c04_observed_monotone",
@@ -288,6 +300,14 @@ ENGINES = [
      "kind_free_text": "differential correspondence (real Observable/SharedObservable/Subscriber, default lock flavour, vs Lean model OWorld) + specification-level oracle"},
     {"name": "conc", "path": "harness/src/eng_conc.rs", "serves_properties": ["C02", "C03", "C04"],
      "kind_free_text": "real threads driven through every pause-point interleaving by a director (forced schedules) + free-running rounds; traces replayed on the Lean lock-level model"},
+    {"name": "own", "path": "harness/src/eng_own.rs", "serves_properties": ["C20"],
+     "kind_free_text": "instrumented element type (ids, drop registry) through observable histories (library-held ids compared with the Lean ledger after every call) and vector/adapter histories (invariants)"},
     {"name": "obsasync", "path": "harness/src/eng_obs.rs", "serves_properties": ["C16", "C19"],
      "kind_free_text": "the same histories on the async-lock flavour, every future polled once by a hand-rolled executor, against the same Lean model"},
 ]
+
+PROPS["C20"]["rule"] = ("engine own — 1500 (thorough 12000) random histories of 5..45 calls on Observable / SharedObservable in both lock flavours with an instrumented element type "
+    "(set, set_if_not_eq equal/different, set_if_hash_not_eq, take, update, get, subscribe, poll, next_now, clone/drop of subscribers and owners, into_shared), the set of ids held by the "
+    "library compared with the Lean ledger after every call; 800 (thorough 6000) random histories on an ObservableVector with plain and batched subscribers, a head-filter-sort chain and a tail, "
+    "transactions, entries, lag-inducing capacities, kept and mapped diffs, with the no-double-drop / nothing-left-alive check at the end. Every case is non-trivial; distinct = distinct traces.")
+PROPS["C20"]["exhaustive"] = False
